@@ -219,7 +219,7 @@ theorem define_ok {env : List OType} {d : Def} {t : OType} (h : define env d = .
     | error c => simp [ha] at h
     | ok attrs =>
       simp only [ha] at h
-      cases hfn : defineFuncs parent d.funcs with
+      cases hfn : defineFuncs parent (d.attrs.map (·.name)) d.funcs with
       | error c => simp [hfn] at h
       | ok u0 =>
       simp only [hfn] at h
@@ -494,6 +494,7 @@ theorem mkAttr_succeeds {d : AttrDecl} (h : AttrDeclOK d) : ∃ a, mkAttr d = .o
 /-- the declared attribute may stand where it stands: a fresh name without `override`, or a proper override (a final
     member — every constant is final — is overridden only constant by constant; the type may only narrow) -/
 def OverrideOK (parent : OType) (d : AttrDecl) : Prop :=
+  fnShadow parent d.name = false ∧
   match findAttr parent d.name with
   | none => d.override = false
   | some pa => d.override = true ∧ (pa.final = true → pa.kind = .constant ∧ d.kind = .constant) ∧
@@ -503,8 +504,10 @@ theorem assertOverride_succeeds {parent : OType} {d : AttrDecl} {a : Attr} (h : 
     (ha : mkAttr d = .ok a) : assertOverride parent a = .ok () := by
   obtain ⟨hk, ho⟩ := mkAttr_kind_override ha
   unfold OverrideOK at h
+  obtain ⟨hsh, h⟩ := h
   unfold assertOverride
   rw [mkAttr_name ha]
+  simp only [hsh, Bool.false_eq_true, if_false]
   cases hf : findAttr parent d.name with
   | none =>
     simp only [hf] at h
